@@ -530,6 +530,8 @@ func runC08(c *Ctx) {
 	c.Rule("C08.T", "self-test of the interval transfer functions", 6)
 	c08SelfTest(c, p)
 
+	c.Rule("C08.E", "a failed list call is reported as an error (so that it is backed off): non-200 replies and transport errors never yield a nil error", 4)
+	c08ErrorClassification(c, p)
 	fn := c.need(p, "C08.I", "agent/utils.ExponentialBackoffDuration")
 	if fn != nil {
 		c08Intervals(c, p, fn)
@@ -824,4 +826,80 @@ func c08SelfTest(c *Ctx, p *Prog) {
 	chk("join", j.flo == 0 && j.fhi == 3, j.String())
 	tr, _ := big.NewFloat(math.Trunc(2.99)).Int(nil)
 	chk("truncation", tr.Int64() == 2, tr.String())
+}
+
+// c08ErrorClassification: the polling loop backs off only when
+// ListPendingRequests returns an error, so every failure of the list call
+// must surface as one.
+func c08ErrorClassification(c *Ctx, p *Prog) {
+	if f := c.need(p, "C08.E", "agent/utils.parseRequestIDs"); f != nil {
+		nilErrReturn := func(i ssa.Instruction) bool {
+			r, ok := i.(*ssa.Return)
+			if !ok || len(r.Results) != 2 {
+				return false
+			}
+			return IsNilConst(ReturnValue(r, 1))
+		}
+		env := func(status int64) Env {
+			return func(v ssa.Value) (constant.Value, bool) {
+				if _, fld, ok := FieldLoad(v); ok && fld == "StatusCode" {
+					return IntC(status), true
+				}
+				return nil, false
+			}
+		}
+		bad := ""
+		for _, st := range []int64{100, 204, 301, 400, 401, 404, 500, 502, 503, 504} {
+			if hit, path := (&Walk{Target: nilErrReturn, Edge: EdgeUnder(env(st))}).FromBlock(f.Blocks[0]); hit != nil {
+				bad = fmt.Sprintf("a reply with status %d can be returned with a nil error (return at %s, path %s)", st, p.Pos(hit.Pos()), PathString(p, path))
+				break
+			}
+		}
+		c.Check("C08.E", "parseRequestIDs:non-200-is-an-error", p, f.Pos(), bad == "", "for statuses 100,204,301,400,401,404,500,502,503,504 no return with a nil error is reachable", bad+": the polling loop treats the failed list call as a success, resets the counter and polls again at once (busy loop against a failing proxy)")
+		hit, _ := (&Walk{Target: nilErrReturn, Edge: EdgeUnder(env(200))}).FromBlock(f.Blocks[0])
+		c.Check("C08.E", "parseRequestIDs:200-can-succeed", p, f.Pos(), hit != nil, "a 200 reply can be returned without error", "a 200 reply can no longer succeed")
+	}
+	if f := c.need(p, "C08.E", "agent/utils.ListPendingRequests"); f != nil {
+		do := c.UniqueCall("C08.E", p, f, false, "(*net/http.Client).Do")
+		if do != nil {
+			var ifi *ssa.If
+			succ := 0
+			EachInstr(f, func(i ssa.Instruction) {
+				if x, ok := i.(*ssa.If); ok {
+					if v, s, ok := ErrNilTest(x); ok && CallResult(v, 1, "(*net/http.Client).Do") != nil {
+						ifi, succ = x, s
+					}
+				}
+			})
+			ok := false
+			if ifi != nil {
+				ok = true
+				blk := ifi.Block().Succs[succ]
+				w := &Walk{Target: func(i ssa.Instruction) bool {
+					r, isR := i.(*ssa.Return)
+					return isR && IsNilConst(ReturnValue(r, 1))
+				}}
+				if hit, _ := w.FromBlock(blk); hit != nil {
+					ok = false
+				}
+			}
+			c.Check("C08.E", "ListPendingRequests:transport-error-is-an-error", p, do.Pos(), ok, "a failed round trip is returned as a non-nil error", "a transport error of the list call can be returned as a nil error")
+		}
+		// the result of parseRequestIDs is returned as is
+		okr := false
+		for _, r := range Returns(f) {
+			if CallResult(ReturnValue(r, 1), 1, ModPath+"/agent/utils.parseRequestIDs") != nil {
+				okr = true
+			}
+			if call, isC := ReturnValue(r, 0).(*ssa.Call); isC && CalleeName(call.Common()) == ModPath+"/agent/utils.parseRequestIDs" {
+				okr = true
+			}
+			if e, isE := r.Results[0].(*ssa.Extract); isE {
+				if call, isC := e.Tuple.(*ssa.Call); isC && CalleeName(call.Common()) == ModPath+"/agent/utils.parseRequestIDs" {
+					okr = true
+				}
+			}
+		}
+		c.Check("C08.E", "ListPendingRequests:returns-parse-result", p, f.Pos(), okr, "the error of parseRequestIDs is returned to the polling loop", "ListPendingRequests no longer returns the error of parseRequestIDs")
+	}
 }
